@@ -665,6 +665,8 @@ Definition sim_result (rs : sstate + outcome) (rm : mstate + mfin) : Prop :=
   | _, _ => False
   end.
 
+Arguments base : simpl never.
+
 Lemma base_len : forall k c, List.length (base k c) = blen c.
 Proof. intros k c; unfold base, blen, ar; destruct (c_hasparam c); reflexivity. Qed.
 
@@ -757,6 +759,120 @@ Lemma fiber_rel_running_intro : forall k c f,
   stack f = base k c -> frames f = [bframe k (KBody (c_code c)) (c_fresh c)] -> handlers f = hrel c ->
   fiber_rel k c f.
 Proof. intros k c f Hs H1 H2 H3 H4 H5. unfold fiber_rel. rewrite Hs. auto. Qed.
+
+(* handing a value back: the running coroutine `me` stops being active, its resumer b runs *)
+Lemma inv_handback : forall me b co co' st,
+  inv_S me co -> c_back (co me) = Some b -> ~ active st ->
+  c_status (co' me) = st -> c_back (co' me) = None ->
+  c_status (co' b) = SRunning -> c_back (co' b) = c_back (co b) ->
+  (forall k, k <> me -> k <> b -> c_status (co' k) = c_status (co k) /\ c_back (co' k) = c_back (co k)) ->
+  inv_S b co'.
+Proof.
+  intros me b co co' st (I1 & I2 & I3 & I4 & I5) Hb Hna Hs1 Hb1 Hs2 Hb2 Hoth.
+  destruct (I2 _ _ Hb) as [d Hd].
+  assert (Hbme : b <> me) by (intros ->; congruence).
+  assert (Hback : forall k, k <> me -> c_back (co' k) = c_back (co k)).
+  { intros k Hk. destruct (Nat.eq_dec k b) as [->|Hkb]; [exact Hb2|apply Hoth; auto]. }
+  assert (Hnob : forall k, k <> me -> c_back (co k) <> Some b).
+  { intros k Hk Hkb. apply Hk. apply (I3 k me b); auto. }
+  assert (Hnome : forall k, c_back (co k) <> Some me).
+  { intros k Hk. destruct (I2 _ _ Hk) as [d' Hd']. congruence. }
+  repeat split.
+  - exact Hs2.
+  - intros k b' Hk. destruct (Nat.eq_dec k me) as [->|Hkme]; [congruence|].
+    rewrite Hback in Hk by auto.
+    assert (b' <> me) by (intros ->; exact (Hnome k Hk)).
+    assert (b' <> b) by (intros ->; exact (Hnob k Hkme Hk)).
+    destruct (I2 _ _ Hk) as [d' Hd']. exists d'. destruct (Hoth b') as [-> _]; auto.
+  - intros k k' b' Hk Hk'.
+    destruct (Nat.eq_dec k me) as [->|Hkme]; [congruence|].
+    destruct (Nat.eq_dec k' me) as [->|Hkme']; [congruence|].
+    rewrite Hback in Hk, Hk' by auto. eauto.
+  - intros k b' Hk. destruct (Nat.eq_dec k me) as [->|Hkme]; [congruence|].
+    rewrite Hback in Hk by auto. destruct (Nat.eq_dec k b) as [->|Hkb].
+    + rewrite Hs2. exact I.
+    + destruct (Hoth k) as [-> _]; auto. eauto.
+  - intros k Hk0 Ha. destruct (Nat.eq_dec k me) as [->|Hkme].
+    + rewrite Hs1 in Ha. contradiction.
+    + rewrite Hback by auto. destruct (Nat.eq_dec k b) as [->|Hkb].
+      * apply I5; auto. rewrite Hd. exact I.
+      * destruct (Hoth k) as [Hsk _]; auto. rewrite Hsk in Ha. auto.
+Qed.
+
+(* resuming t: `me` waits in a call, t runs *)
+Lemma inv_resume : forall me t co co' d,
+  inv_S me co -> ~ active (c_status (co t)) -> c_back (co t) = None ->
+  c_status (co' me) = SCalling d -> c_back (co' me) = c_back (co me) ->
+  c_status (co' t) = SRunning -> c_back (co' t) = Some me ->
+  (forall k, k <> me -> k <> t -> c_status (co' k) = c_status (co k) /\ c_back (co' k) = c_back (co k)) ->
+  inv_S t co'.
+Proof.
+  intros me t co co' d (I1 & I2 & I3 & I4 & I5) Hna Hbt Hs1 Hb1 Hs2 Hb2 Hoth.
+  assert (Htme : t <> me) by (intros ->; rewrite I1 in Hna; apply Hna; exact I).
+  assert (Hback : forall k, k <> t -> c_back (co' k) = c_back (co k)).
+  { intros k Hk. destruct (Nat.eq_dec k me) as [->|Hkb]; [exact Hb1|apply Hoth; auto]. }
+  assert (Hnome : forall k, c_back (co k) <> Some me).
+  { intros k Hk. destruct (I2 _ _ Hk) as [d' Hd']. congruence. }
+  assert (Hnot : forall k, c_back (co k) <> Some t).
+  { intros k Hk. destruct (I2 _ _ Hk) as [d' Hd']. rewrite Hd' in Hna. apply Hna; exact I. }
+  repeat split.
+  - exact Hs2.
+  - intros k b' Hk. destruct (Nat.eq_dec k t) as [->|Hkt].
+    + rewrite Hb2 in Hk. inversion Hk; subst b'. eauto.
+    + rewrite Hback in Hk by auto.
+      assert (b' <> me) by (intros ->; exact (Hnome k Hk)).
+      assert (b' <> t) by (intros ->; exact (Hnot k Hk)).
+      destruct (I2 _ _ Hk) as [d' Hd']. exists d'. destruct (Hoth b') as [-> _]; auto.
+  - intros k k' b' Hk Hk'.
+    destruct (Nat.eq_dec k t) as [->|Hkt]; destruct (Nat.eq_dec k' t) as [->|Hkt']; auto.
+    + rewrite Hb2 in Hk. inversion Hk; subst b'. rewrite Hback in Hk' by auto. exfalso; eapply Hnome; eauto.
+    + rewrite Hb2 in Hk'. inversion Hk'; subst b'. rewrite Hback in Hk by auto. exfalso; eapply Hnome; eauto.
+    + rewrite Hback in Hk, Hk' by auto. eauto.
+  - intros k b' Hk. destruct (Nat.eq_dec k t) as [->|Hkt]; [rewrite Hs2; exact I|].
+    rewrite Hback in Hk by auto. destruct (Nat.eq_dec k me) as [->|Hkme].
+    + rewrite Hs1. exact I.
+    + destruct (Hoth k) as [-> _]; auto. eauto.
+  - intros k Hk0 Ha. destruct (Nat.eq_dec k t) as [->|Hkt]; [congruence|].
+    rewrite Hback by auto. destruct (Nat.eq_dec k me) as [->|Hkme].
+    + apply I5; auto. rewrite I1. exact I.
+    + destruct (Hoth k) as [Hsk _]; auto. rewrite Hsk in Ha. auto.
+Qed.
+
+Lemma base_set_dst_none : forall k c, base k (set_locals (set_dst None VNil (c_locals c)) c) = base k c.
+Proof. reflexivity. Qed.
+
+(* the resumed fiber stores the value found in its top slot: helper Return (if any), SetLocal, Pop *)
+Lemma settle_store : forall vm b c extra hfr top d code v f0,
+  current vm = Some b -> fibers vm b = f_poke0 v f0 ->
+  call_arity f0 = ar c -> stack f0 = base b c ++ extra ++ [top] ->
+  frames f0 = hfr ++ [bframe b (KStore d code) false] -> helper_ok (blen c) extra hfr ->
+  exists vm', settle vm = Some vm' /\ current vm' = Some b /\ handling vm' = handling vm /\
+    (forall k, k <> b -> fibers vm' k = fibers vm k) /\
+    stack (fibers vm' b) = base b (set_locals (set_dst d v (c_locals c)) c) /\
+    frames (fibers vm' b) = [bframe b (KBody code) false] /\
+    caller (fibers vm' b) = caller f0 /\ call_arity (fibers vm' b) = call_arity f0 /\
+    handlers (fibers vm' b) = handlers f0.
+Proof.
+  intros vm b c extra hfr top d code v f0 Hcur Hfib Har Hstk Hfr Hok.
+  unfold settle. rewrite Hcur, Hfib.
+  destruct Hok as [[-> ->]|(h & bb & ->)].
+  - simpl in Hstk, Hfr. simpl. rewrite Hfr. simpl.
+    eexists. split; [reflexivity|]. simpl. rewrite upd_same.
+    split; [exact Hcur|]. split; [reflexivity|]. split; [intros k Hk; now rewrite upd_other by auto|].
+    unfold store_top, f_peek, f_pop, f_poke0, slot_of. simpl. rewrite Hstk, removelast_snoc, peek_snoc, Har.
+    destruct d as [x|]; simpl.
+    + rewrite set_nth_local, removelast_snoc. repeat split; reflexivity.
+    + rewrite removelast_snoc. repeat split; reflexivity.
+  - simpl in Hfr. simpl. rewrite Hfr. simpl.
+    unfold return_impl. rewrite Hcur, Hfib. simpl. rewrite Hfr. simpl.
+    eexists. split; [reflexivity|]. simpl. rewrite !upd_same.
+    split; [exact Hcur|]. split; [reflexivity|]. split; [intros k Hk; now rewrite !upd_other by auto|].
+    unfold store_top, f_peek, f_pop, f_poke0, f_push, f_truncate, slot_of. simpl.
+    rewrite Hstk, removelast_app2, peek_app2, removelast_snoc, firstn_base, Har, peek_snoc.
+    destruct d as [x|]; simpl.
+    + rewrite set_nth_local, removelast_snoc. repeat split; reflexivity.
+    + rewrite removelast_snoc. repeat split; reflexivity.
+Qed.
 
 Lemma step_sim : forall p s m, R s m -> sim_result (step_S p s) (step_M true p m).
 Proof.
